@@ -8,7 +8,7 @@
   relay of returned deltas, complete-state gossip, links and peers going away and coming back).
   A schedule is any list of `Ev`; nothing bounds the number of brokers, events, connections.
 -/
-import Emitter.Lemmas.Cluster
+import Emitter.Lemmas.ClusterOwn
 namespace Emitter.C05
 open Emitter Emitter.Lww Emitter.Cluster
 
@@ -82,6 +82,27 @@ theorem quiescent_routing (c : Cluster) (hc : CInv c) (a : Broker) (ha : a ∈ c
     p ∈ forwardTo c.mode a q ↔
       p ≠ a.self ∧ ∃ y ∈ c.brokers, y.self = p ∧ ∃ cn σ, (cn, σ) ∈ y.locals ∧ Trie.matchesMode c.mode σ q = true :=
   forward_exact c.mode c.brokers a ha hc.brokers heq hown hact hpeers q p
+
+/-- The same for every reachable cluster state, with the side conditions discharged: after ANY
+schedule of well-formed events that raised no flag, if gossip has quiesced (every broker holds
+the same add / remove times — C04's conclusion once every update has reached every broker) and
+the peers a broker knows are active, a publish on any broker `a` is forwarded to exactly the other
+brokers with a live local subscription whose filter matches. (`own_truth_run`: on such schedules
+a broker's own entries are active exactly for its live subscriptions — nobody else ever stamps
+them — and every active entry names a broker of the cluster.) -/
+theorem quiescent_routing_run (mode : Trie.Mode) (n : Nat) (hn : n < 18446744073709551615) (evs : List Ev)
+    (hok : ∀ e ∈ evs, e.ok) (hf : ((Cluster.init mode n).run evs).2 = [])
+    (heq : ∀ x ∈ ((Cluster.init mode n).run evs).1.brokers, ∀ y ∈ ((Cluster.init mode n).run evs).1.brokers,
+      Equiv x.state y.state)
+    (hact : ∀ x ∈ ((Cluster.init mode n).run evs).1.brokers, ∀ p r, mget x.members p = some r → r.active = true)
+    (a : Broker) (ha : a ∈ ((Cluster.init mode n).run evs).1.brokers) (q : Ssid) (p : PeerName) :
+    p ∈ forwardTo mode a q ↔
+      p ≠ a.self ∧ ∃ y ∈ ((Cluster.init mode n).run evs).1.brokers, y.self = p ∧
+        ∃ cn σ, (cn, σ) ∈ y.locals ∧ Trie.matchesMode mode σ q = true := by
+  have hc : CInv ((Cluster.init mode n).run evs).1 :=
+    cinv_run _ evs (cinv_init mode n hn) (by rw [hf]; intro f hfm; cases hfm)
+  have hown := own_truth_run mode n hn evs hok hf
+  exact forward_exact mode _ a ha hc.brokers (heq a ha) hown.1 (hact a ha) (hown.2 a ha) q p
 
 /-- … each broker at most once, and on a broker the message is written to every local direct
 subscriber with a matching filter exactly once, and never forwarded again (`onPeerMessage`
